@@ -248,7 +248,7 @@ class Gen:
     def mutate(self, t, p):
         """small head/arity/flag mutations"""
         r = self.r
-        if t[0] == "E" or r.random() > p and not t[2]:
+        if t[0] == "E":
             return t
         h, a = list(t[1]), [self.mutate(c, p) for c in t[2]]
         if r.random() < p:
